@@ -287,7 +287,7 @@ def run(ctx):
              "a placeholder refused because the name belongs to a line of "
              "another kind, the interval checks of an E line, ...) nothing "
              "has been written to the Gfa or to a registered line when the "
-             "exception is raised", floor=40)
+             "exception is raised", floor=25)
     ctx.assume("Gfa._segments_first_order is False: it is assigned only in "
                "Gfa.__init__ and no public API sets it")
     from .refgraph import RefHooks
@@ -599,7 +599,7 @@ def run(ctx):
              "every kind of field (reference field, name, other), vlevel and "
              "single failure point (duplicate name, level-3 validation): "
              "when it raises the line is still registered under its old name "
-             "and its data are unchanged", floor=6)
+             "and its data are unchanged", floor=4)
     f_sef = ctx.anchor("Line._set_existing_field",
                        Line.find_method("_set_existing_field"))
     SEG = repo.cls("line.segment.GFA2")
@@ -780,7 +780,7 @@ def run(ctx):
              "initialisation of the references (both can refuse the line) "
              "come before the line is put into the registry; a real "
              "duplicate is refused by the default _process_not_unique "
-             "without any write to the Gfa", floor=3)
+             "without any write to the Gfa", floor=2)
     f_c = ctx.anchor("Line.connect", Line.find_method("connect"))
     f_pnu = ctx.anchor("Connection._process_not_unique", repo.cls(
         "line.common.connection.Connection").find_method(
